@@ -97,6 +97,32 @@ def stepCombo (p : Acc × UInt64) : Acc × UInt64 :=
     | none => ({ a with viol := a.viol + 1 }, st)
   | _, _ => ({ a with viol := a.viol + 1 }, st)
 
+def isErr : Except NativeError V → Bool | .error _ => true | .ok _ => false
+def isErrO : Option (Except NativeError V) → Bool | some (.error _) => true | _ => false
+
+/-- rejections (mirror of the harness's "r" ranges): every listed invalid date / time must be an error value -/
+def stepReject (a : Acc) (i : Int) : Acc :=
+  let y := 1 + (i * 37) % 9999
+  let feb : Int := if isLeap y then 30 else 29
+  let badDates : List (Int × Int × Int) := [(y, 13, 1), (y, 0, 1), (y, 2, feb), (y, 2, 30), (y, 4, 31), (y, 1, 0), (y, 1, 32), (y, 12, 32), (y, -1, 5)]
+  let a := badDates.foldl (fun (a : Acc) (p : Int × Int × Int) =>
+    let (yy, mm, dd) := p
+    let a := if isErr (encodeDate [n yy, n mm, n dd]) then a else { a with viol := a.viol + 1 }
+    if 0 ≤ mm && mm ≤ 99 && 0 ≤ dd && dd ≤ 99 then
+      (if isErrO (stringToDate [.str (pad 4 yy.toNat ++ ['-'] ++ pad 2 mm.toNat ++ ['-'] ++ pad 2 dd.toNat)]) then a else { a with viol := a.viol + 1 })
+    else a) a
+  let h := i % 24; let mi := (i * 7) % 60; let s := (i * 11) % 60
+  let badTimes : List (Int × Int × Int) := [(24, mi, s), (25 + i % 40, mi, s), (h, 60, s), (h, 61 + i % 30, s), (h, mi, 60), (h, mi, 61 + i % 30), (h, mi, 99)]
+  let a := badTimes.foldl (fun (a : Acc) (p : Int × Int × Int) =>
+    let (hh, mm, ss) := p
+    let txt := pad 2 hh.toNat ++ [':'] ++ pad 2 mm.toNat ++ [':'] ++ pad 2 ss.toNat
+    let a := if isErr (encodeTime [n hh, n mm, n ss]) then a else { a with viol := a.viol + 1 }
+    let a := if isErrO (stringToTime [.str txt]) then a else { a with viol := a.viol + 1 }
+    if isErrO (stringToDatetime [.str ("2024-03-01 ".toList ++ txt)]) then a else { a with viol := a.viol + 1 }) a
+  [(-1, mi, s), (h, -1, s), (h, mi, -1)].foldl (fun (a : Acc) (p : Int × Int × Int) =>
+    let (hh, mm, ss) := p
+    if isErr (encodeTime [n hh, n mm, n ss]) then a else { a with viol := a.viol + 1 }) a
+
 def iterate {α : Type} (f : α → α) : Nat → α → α
   | 0, a => a
   | k + 1, a => iterate f k (f a)
@@ -111,6 +137,7 @@ def run : List String → Option String
     let a : Acc := match kind with
       | "d" => (List.range c).foldl (fun (a : Acc) (i : Nat) => stepDate a (s + Int.ofNat i)) {}
       | "t" => (List.range c).foldl (fun (a : Acc) (i : Nat) => stepMs a (s + Int.ofNat i)) {}
+      | "r" => (List.range c).foldl (fun (a : Acc) (i : Nat) => stepReject a (s + Int.ofNat i)) {}
       | _ => (iterate stepCombo c ({}, UInt64.ofNat (s.toNat % 2^64))).1
     some s!"viol {a.viol} digest {hex16 a.digest}"
   | _ => none
